@@ -106,7 +106,7 @@ theorem C13_classify_deferred (ty : Option Ty) (n : Name)
 def C13_class_full : Prop := ∀ ty n d, classify ty n d = refClass ty n d
 
 /-- `Variable(name='x', type=INTEGER, dimensions=())` is an `Array` (reached through `Array.rescope`, which always
-passes `dimensions=self.dimensions`, and through `clone(dimensions=())`) -/
+passed `dimensions=self.dimensions` before its `fix:` commit, and through `clone(dimensions=())`) -/
 theorem C13_class_full_false : ¬ C13_class_full := by
   intro h
   have := h (some { dtype := .integer }) ['x'] (some 0)
@@ -362,9 +362,9 @@ theorem C13_create_inherits_and_pins (tds : TDefs) (ss ss' : Scopes) (n : Name) 
 
 /-! ## C. rescoping -/
 
-/-- the subscripts `rescope` hands to the factory: `Array.rescope` always passes `dimensions=self.dimensions`
-(an empty tuple when the array has no subscripts), `TypedSymbol.rescope` passes none -/
-def rescopeDims (s : Sym) : Option Nat := if s.self.cls = .array then some s.self.dims else none
+/-- the subscripts `rescope` hands to the factory: `Array.rescope` passes `dimensions=self.dimensions or None`
+(`None` when the array has no subscripts), `TypedSymbol.rescope` passes none -/
+def rescopeDims (s : Sym) : Option Nat := if s.self.cls = .array then dimsOrNone s.self.dims else none
 
 theorem create_typed_attached (tds : TDefs) (ss : Scopes) (parts : List Name) (i : Nat) (t : Ty)
     (parent : Option Link) (dims : Option Nat) :
@@ -439,12 +439,23 @@ theorem C13_rescope_inserts_missing (tds : TDefs) (ss : Scopes) (sym : Sym) (sc 
     · rw [mkSym_name]; exact lookup_setLocal_same _ _ _ _ hsc
     · exact Or.inr (by simp [mkSym, hp])
 
-/-- what `Array.rescope` does to the class: an `Array` without subscripts rescoped into a scope that declares the
-name a plain INTEGER stays an `Array` (instance of `empty-dimensions-array`) -/
-theorem C13_rescope_array_stays_array :
+/-- **rescoping never produces an `Array` out of nothing**: the rescoped symbol of a symbol without subscripts is
+classified by the recorded type alone — exactly the table of the property statement (`refClass`), for every symbol,
+existing entry and target.  (Full strength since the `fix:` commit for the rescope route of `empty-dimensions-array`;
+before it `Array.rescope` passed `dimensions=()` and the result stayed an `Array`.) -/
+theorem C13_rescope_class (sym : Sym) (e : Ty) (n : Name) :
+    classify (some e) n (rescopeDims sym) = refClass (some e) n (rescopeDims sym) := by
+  apply C13_class_partial
+  unfold KnownEmptyDims rescopeDims dimsOrNone
+  split
+  · split <;> simp_all
+  · simp
+
+/-- `Array.rescope` of an `Array` without subscripts into a scope that declares the name a plain INTEGER gives a `Scalar` -/
+theorem C13_rescope_array_to_scalar :
     (rescope [] [{ parent := none, table := [("x".toList, { dtype := .integer })] }]
       { self := { cls := .array, base := "x".toList, scope := none, ty := some { dtype := .real, shape := some 1 } } } 0).2
-    = .ok { self := { cls := .array, base := "x".toList, scope := some 0, ty := none } } := by decide
+    = .ok { self := { cls := .scalar, base := "x".toList, scope := some 0, ty := none } } := by decide
 
 /-- non-vacuity of `C13_rescope_keeps_existing`: unattached REAL scalar `x` rescoped into a scope declaring `x` INTEGER -/
 example :
